@@ -11,7 +11,7 @@ from .. import facts as F
 from .. import census as CEN
 from ..models import len_term, some, NONE
 from ..zone import Zone
-from .common import (where, short, final_read, impl_fn, inherent_fn, poll_shape, cons_zone, aggregates, calls_named, method_name)
+from .common import (where, short, final_read, impl_fn, inherent_fn, poll_shape, cons_zone, aggregates, calls_named, method_name, boolish)
 
 
 def roles(ctx):
@@ -42,7 +42,7 @@ def roles(ctx):
                     R["queue_f"] = f["name"]
                 elif f["ty"] == "usize":
                     R["bytes_f"] = f["name"]
-                elif f["ty"] == "bool":
+                elif boolish(ctx, f["ty"]):
                     R["dropped_f"] = f["name"]
         elif len(v["fields"]) == 1:
             R["err"] = v["name"]
